@@ -79,20 +79,23 @@ def gen_case(rng, cfg, idx):
     elif k == "batchnorm":
         nd = rng.randint(2, 5)
         c.update({"shape": [rng.randint(2, 4), rng.randint(1, 3)] + [rng.randint(1, 3) for _ in range(nd - 2)], "gamma": rng.random() < 0.6,
-                  "beta": rng.random() < 0.6, "eps": rng.choice([1e-8, 1e-3, 1e-1]), "bad": rng.random() < 0.08})
+                  "beta": rng.random() < 0.6, "eps": rng.choice([1e-8, 1e-3, 1e-1]), "bad": rng.random() < 0.08,
+                  "xdtype": rng.choice(["float64", "float64", "float32", "float16"]), "pdtype": rng.choice(["float64", "float64", "float32"])})
     elif k == "softmax":
         shape = rng.choice([[], [0], [3], [2, 3], [2, 1, 3], [2, 0]])
         nd = len(shape)
         ax = rng.choice(["default", None] + list(range(-nd, nd)) + ([tuple(rng.sample(range(nd), 2))] if nd >= 2 else []))
-        c.update({"shape": shape, "axis": list(ax) if isinstance(ax, tuple) else ax, "fn": rng.choice(["softmax", "logsoftmax"])})
+        c.update({"shape": shape, "axis": list(ax) if isinstance(ax, tuple) else ax, "fn": rng.choice(["softmax", "logsoftmax"]),
+                  "scale": rng.choice([1, 1, 1, 400, 1000])})
     elif k == "loss":
         c.update({"fn": rng.choice(["softmax_crossentropy", "negative_log_likelihood", "multiclass_hinge", "margin_ranking_loss", "focal_loss", "softmax_focal_loss"]),
                   "N": rng.randint(1, 4), "Cn": rng.randint(2, 4), "bad": rng.choice([None, None, None, None, "labels_shape", "labels_range", "weights_shape"]),
                   "alpha": rng.choice([1, 0.5, 2]), "gamma": rng.choice([0, 0.5, 1, 2]), "hinge": rng.choice([None, 0.5, 2.0]), "margin": rng.choice([0.5, 1.0]),
-                  "weights": rng.random() < 0.5, "yscalar": rng.random() < 0.3, "twoD": rng.random() < 0.5})
+                  "weights": rng.random() < 0.5, "yscalar": rng.random() < 0.3, "twoD": rng.random() < 0.5,
+                  "scale": rng.choice([1, 1, 1, 400, 1000])})    # score magnitudes far outside exp's range (the documented formulas stay finite)
     else:
         c.update({"T": rng.randint(1, 3), "N": rng.randint(1, 2), "C": rng.randint(1, 3), "D": rng.randint(1, 3), "s0": rng.random() < 0.4,
-                  "consts": [rng.random() < 0.2 for _ in range(10)],
+                  "consts": [rng.random() < 0.2 for _ in range(10)], "scale": rng.choice([1, 1, 1, 300, 1500]),
                   "dtype": rng.choice(["float64", "float64", "float32"]) if cfg.get("tier") == "thorough" else "float64"})
     return c
 
@@ -127,13 +130,19 @@ def layout(a, lay):
     return a
 
 
-def close(got, want, scale_eps=64):
+def close(got, want, scale_eps=64, coarsest=None):
+    """``coarsest``: dtypes of the operands; the comparison is made at the
+    precision of the coarsest float among them and the result (a float16 input
+    combined with float64 parameters is still computed from float16 data)."""
     got, want = np.asarray(got), np.asarray(want)
     if got.shape != want.shape:
         return False
     if got.size == 0:
         return True
     eps = np.finfo(got.dtype).eps if got.dtype.kind == "f" else np.finfo(np.float64).eps
+    for dt in coarsest or ():
+        if np.dtype(dt).kind == "f":
+            eps = max(eps, np.finfo(np.dtype(dt)).eps)
     S = max(1.0, float(np.max(np.abs(want.astype(np.float64)))) if np.all(np.isfinite(want.astype(np.float64))) else 1.0)
     return bool(np.allclose(got.astype(np.longdouble), want.astype(np.longdouble), rtol=scale_eps * eps, atol=scale_eps * eps * S, equal_nan=True))
 
@@ -289,10 +298,10 @@ def run_batchnorm(c, cnt, viol):
     from mygrad.nnet.layers import batchnorm
     rng = np.random.default_rng(c["vseed"])
     shape = tuple(c["shape"])
-    x = rng.uniform(-2, 2, size=shape)
+    x = rng.uniform(-2, 2, size=shape).astype(c.get("xdtype", "float64"))
     C = shape[1]
-    g = rng.uniform(0.5, 2, size=(C + (1 if c.get("bad") else 0),)) if c["gamma"] else None
-    b = rng.uniform(-1, 1, size=(C,)) if c["beta"] else None
+    g = rng.uniform(0.5, 2, size=(C + (1 if c.get("bad") else 0),)).astype(c.get("pdtype", "float64")) if c["gamma"] else None
+    b = rng.uniform(-1, 1, size=(C,)).astype(c.get("pdtype", "float64")) if c["beta"] else None
     tag = f"batchnorm(x{shape}, gamma={None if g is None else g.shape}, beta={None if b is None else b.shape}, eps={c['eps']})"
     cnt["validity_checks"] = cnt.get("validity_checks", 0) + 1
     try:
@@ -308,7 +317,7 @@ def run_batchnorm(c, cnt, viol):
     want = RN.batchnorm_ref(x, g, b, c["eps"])
     cnt["layer_compared"] = cnt.get("layer_compared", 0) + 1
     modes_agree(lambda x_: batchnorm(x_, gamma=g, beta=b, eps=c["eps"]), (x,), out, cnt, viol, tag, "batchnorm")
-    if not close(out.data, want, 4096):
+    if not close(out.data, want, 64, coarsest=[a.dtype for a in (x, g, b) if a is not None]):
         viol.append({"monitor": "O-naive", "mech": "batchnorm-value", "msg": f"{tag}: differs from (x-mean)/sqrt(var+eps)*gamma+beta, max abs diff {np.max(np.abs(out.data - want))}"})
 
 
@@ -316,7 +325,7 @@ def run_softmax(c, cnt, viol):
     from mygrad.nnet import activations as A
     rng = np.random.default_rng(c["vseed"])
     shape = tuple(c["shape"])
-    x = rng.uniform(-3, 3, size=shape)
+    x = rng.uniform(-3, 3, size=shape) * c.get("scale", 1)
     ax = c["axis"]
     kw = {} if ax == "default" else {"axis": tuple(ax) if isinstance(ax, list) else ax}
     f = getattr(A, c["fn"])
@@ -370,6 +379,8 @@ def run_loss(c, cnt, viol):
             x = raw / raw.sum(axis=1, keepdims=True)
         else:
             x = rng.uniform(-2, 2, size=(N, Cn))
+            if fn == "softmax_crossentropy" and c.get("scale", 1) != 1:
+                x = x * np.array([1.0, c["scale"], -c["scale"], 0.5 * c["scale"]])[:N, None]      # data of very different score scales in one batch
         args = (x, y)
         invalid = bad in ("labels_shape", "labels_range")
         if fn in ("focal_loss", "softmax_focal_loss"):
@@ -408,7 +419,7 @@ def run_gru(c, cnt, viol):
     rng = np.random.default_rng(c["vseed"])
     T, N, C, D = c["T"], c["N"], c["C"], c["D"]
     dt = np.dtype(c["dtype"])
-    X = rng.uniform(-1, 1, size=(T, N, C)).astype(dt)
+    X = (rng.uniform(-1, 1, size=(T, N, C)) * c.get("scale", 1)).astype(dt)
     ps = []
     for _ in range(3):
         ps += [rng.uniform(-1, 1, size=(C, D)).astype(dt), rng.uniform(-1, 1, size=(D, D)).astype(dt), rng.uniform(-1, 1, size=(D,)).astype(dt)]
